@@ -162,7 +162,30 @@ def siteOracle (rows : List SiteRow) : SiteOracle := fun strict s d n =>
     | none => .raises "MissingSiteOutcome")
   | none => .raises "MissingSiteOutcome"
 
-def scalarLoad (rows : List SiteRow) : Bool → String → Val → Outcome Val := scalarLoadGen (siteOracle rows)
+/-- a USER leaf (`loader(U, fn)` in the recipe of the harness): no library code at all, its outcome on each
+    datum is what the harness's own function does -/
+structure LeafRow where
+  scalar : String
+  datum : Val
+  out : Outcome Val
+
+def decLeafRow (j : Json) : Except String LeafRow := do
+  let d ← decVal (← field j "datum")
+  let o ← asArr (← field j "out")
+  let out ← match o with
+    | [Json.str "ok", v] => pure (Outcome.ok (← decVal v))
+    | [Json.str "err", Json.str c] => pure (Outcome.err (LErr.leaf c d))
+    | [Json.str "escape", Json.str e] => pure (Outcome.escape e)
+    | _ => throw "bad leaf outcome"
+  return { scalar := ← fieldStr j "scalar", datum := d, out := out }
+
+def scalarLoad (rows : List SiteRow) (leaves : List LeafRow) : Bool → String → Val → Outcome Val :=
+  fun strict s d =>
+    if s.startsWith "user:" then
+      match leaves.find? (fun r => r.scalar == s && Val.same r.datum d) with
+      | some r => r.out
+      | none => .escape "MissingLeafOutcome"
+    else scalarLoadGen (siteOracle rows) strict s d
 
 def scalarDump (rows : List DumpRow) (s : String) (x : Val) : Outcome Val :=
   if Generated.Scalars.asIsDumpScalars.contains s then .ok x
@@ -194,13 +217,14 @@ def handle : Protocol.Handler := fun j => do
       | _ => throw "classes: expected object") <|> pure []
   let siteRows ← (do (← fieldArr j "sites").mapM decSiteRow) <|> pure []
   let dumpRows ← (do (← fieldArr j "dumps").mapM decDumpRow) <|> pure []
+  let leafRows ← (do (← fieldArr j "leaves").mapM decLeafRow) <|> pure []
   let mros ← (do
       match (← field j "mros") with
       | .obj kvs => kvs.toList.mapM fun (k, v) => do return (k, ← (← asArr v).mapM asStr)
       | _ => throw "mros: expected object") <|> pure []
   let W : World := {
     classes := fun c => (classes.find? (fun p => p.1 == c)).map (·.2),
-    scalarLoad := scalarLoad siteRows, scalarDump := scalarDump dumpRows }
+    scalarLoad := scalarLoad siteRows leafRows, scalarDump := scalarDump dumpRows }
   let supers ← (do
       match (← field j "supers") with
       | .obj kvs => kvs.toList.mapM fun (k, v) => do return (k, ← (← asArr v).mapM asStr)
